@@ -56,7 +56,7 @@ def _is_filterx(op):
     return op.get("name") == "filter" and any(v not in ("T", "F") for v in core.seq(op.get("v", [])))
 
 
-def stage_exhaustive(rep, props, *, label, consts, flnames, defdid="hash", mk=1, maxd=4, light=()):
+def stage_exhaustive(rep, props, *, label, consts, flnames, defdid="hash", mk=1, maxd=4, light=(), only=None):
     """TLC enumerates every (state, op) in the bound; each is executed per flavour and validated."""
     t0 = time.time()
     c = dict(consts)
@@ -75,6 +75,8 @@ def stage_exhaustive(rep, props, *, label, consts, flnames, defdid="hash", mk=1,
             pairs.append((i, interned.setdefault(k, r["pre"]), r["op"]))
     del interned
     res.cleanup()
+    if only:      # the enumeration needs the other operations to reach its states; only these are executed
+        pairs = [p for p in pairs if p[2]["name"] in only or (p[2]["name"], p[2].get("via")) in only]
     BATCH = 150_000
     for fn in flnames:
         # the large filter-verdict alphabet is data-flavour independent: executed for the first flavour only
@@ -383,6 +385,14 @@ def run(prop: str, tier: str) -> int:
             "C07": ["str", "fwd"]}.get(prop, ["str"])
     pairs = stage_exhaustive(rep, props, label="ex:plain<=3x2", consts=K(max_nodes=3, d=2, ops=focus, emit=True),
                              flnames=fl_q if quick else PLAIN_FLAVOURS, light=(fl_q if quick else PLAIN_FLAVOURS)[1:])
+    if quick and prop in ("C07", "C01"):
+        # a branch copied into itself needs room for one more node than the bound above
+        stage_exhaustive(rep, props, label="ex:copy_into_own_branch<=4x2", only={("add_node", "copy_to")},
+                         consts=K(max_nodes=4, d=2, ops=["add", "add_node"], emit=True), flnames=["str"])
+    if quick and prop in ("C02", "C03", "C13"):
+        # data / id changes on one more node than the bound above (clone groups whose later members collide)
+        stage_exhaustive(rep, props, label="ex:set_data<=4x3", only={"set_data", "rename"},
+                         consts=K(max_nodes=4, d=3, ops=["add", "add_node", "set_data"], emit=True), flnames=["str"])
     # --- calls through handles of removed nodes after every removing step of that enumeration
     stage_stale(rep, props, label="stale:plain<=3x2", pairs=pairs, flnames=["str"] if quick else ["str", "keyed", "falsy"],
                 limit=400 if quick else 0)
